@@ -302,6 +302,32 @@ def oracle_landscape_candidates(ck, rng):
                                  "max_shifts": mfr, "displacement": dd.tolist(), "seed": ck.seed, "iteration": it},
                                  key={"site": "landscape-multiple-upsampled", "model": Mu.__name__}, oracle="upsampled_multi_landscape")
 
+    # several templates under a common soft mask, no rotation search: a sub-volume identical to template k is reported as template k with score 1
+    # (ZNCC / NCC), and the candidate scores are those of one-template models with the same mask
+    for it in range(2 if ck.tier == "quick" else 8):
+        shape = (10, 11, 12)
+        tl = [ndi.gaussian_filter(rng.normal(size=shape), 1.0).astype(np.float32) for _ in range(3)]
+        msk = np.clip(ndi.gaussian_filter((rng.random(shape) > 0.45).astype(np.float32), 1.2) * 1.3, 0.0, 1.0).astype(np.float32)
+        for Mu in (ZNCCAlignment, NCCAlignment):
+            multi = Mu(tl, msk)
+            for k_ in range(3):
+                ck.oracle_count("masked_multi_template", 1, 1)
+                try:
+                    res = multi.align(tl[k_], (1.0, 1.0, 1.0))
+                    lnd = np.asarray(multi.landscape(tl[k_], (1, 1, 1)))
+                    singles = [float(Mu(t_, msk).align(tl[k_], (0.0, 0.0, 0.0)).score) for t_ in tl]
+                    centres = [float(lnd[j_, 1, 1, 1]) for j_ in range(3)]
+                    bad = None
+                    if int(res.label) != k_ or abs(float(res.score) - 1) > 2e-3 or np.abs(res.shift).max() > 0.06:
+                        bad = f"a sub-volume identical to template {k_} is reported as template {int(res.label)} with score {float(res.score):.4f}, shift {np.round(res.shift, 2).tolist()}"
+                    elif np.abs(np.array(centres) - np.array(singles)).max() > 2e-3:
+                        bad = f"landscape centres per template {np.round(centres, 4).tolist()} differ from the one-template models' scores {np.round(singles, 4).tolist()}"
+                except Exception as e:  # noqa
+                    bad = f"raised {type(e).__name__}: {e}"
+                if bad:
+                    ck.violation(what=f"{Mu.__name__} with three templates and a soft mask: {bad}", inp={"model": Mu.__name__, "k": k_, "seed": ck.seed, "iteration": it},
+                                 key={"site": "masked-multi-template", "model": Mu.__name__}, oracle="masked_multi_template")
+
 
 def run(ck: common.Check):
     ck.design_ref = "DESIGN.md §6 C07"
